@@ -263,8 +263,29 @@ def run_c28(ctx, replay_path=None):
 # ------------------------------------------------------------------------------------------------
 # shared evaluation
 # ------------------------------------------------------------------------------------------------
+def run_pair_parallel(ctx, sessions, proj):
+    """ctx.run_pair with the sessions cut into chunks that run in parallel harness / model
+    processes (sessions are independent: each starts with `reset`)"""
+    import os
+    from concurrent.futures import ThreadPoolExecutor
+    from vlib import core
+    workers = max(1, min(12, (os.cpu_count() or 4) - 2))
+    if len(sessions) < 4 * workers:
+        return ctx.run_pair(sessions, proj)
+    size = (len(sessions) + workers - 1) // workers
+    chunks = [sessions[i:i + size] for i in range(0, len(sessions), size)]
+    with ThreadPoolExecutor(max_workers=2 * len(chunks)) as ex:
+        fi = [ex.submit(ctx.run_impl, c) for c in chunks]
+        fm = [ex.submit(ctx.run_model, c) for c in chunks]
+        impl = [r for f in fi for r in f.result()]
+        model = [r for f in fm for r in f.result()]
+    return impl, model, core.compare_sessions(sessions, impl, model, proj)
+
+
 def evaluate(ctx, res, sessions, proj, monitor, pid, shrink=True):
-    impl, model, dis = ctx.run_pair(sessions, proj)
+    from vlib import core
+    known = {f["key"] for f in core.load_known().get("findings", []) if f.get("property") == pid}
+    impl, model, dis = run_pair_parallel(ctx, sessions, proj)
     for d in dis:
         ops = sessions[d["session"]]
         if len(res.disagreements) < 2:
@@ -285,12 +306,12 @@ def evaluate(ctx, res, sessions, proj, monitor, pid, shrink=True):
         if m:
             k, key, what = m
             small = ops[:k + 1]
-            if shrink and len([f for f in res.failures if f["key"] == key]) == 0:
+            if shrink and key not in known and len([f for f in res.failures if f["key"] == key]) == 0:
                 def fails(cand, key=key):
                     out = ctx.run_impl([cand])[0]
                     mm = None if out["crash"] else monitor(cand, out["out"])
                     return bool(mm) and mm[1] == key
-                small = ctx.shrink(small, fails, budget=120)
+                small = ctx.shrink(small, fails, budget=60)
             res.failures.append({"key": key, "what": what, "ops": small})
     res.samples = [" ; ".join(s[:10]) for s in sessions[-3:]]
     res.extra["_impl"] = impl
@@ -637,12 +658,16 @@ def gen_c29(rng, length):
             if rng.random() < 0.15:
                 pdus = pdus[:2] + [terminate(rng.choice([0x13, 0x16]))]
             ops.append(("ev " + " ".join(pdus)).strip())
-        elif r < 0.72:
+        elif r < 0.68:
             ops.append("to")
+        elif r < 0.72:
+            ops += ["to"] * 6          # attempt timeout (connecting) / supervision timeout of a (16, 10) connection
         elif r < 0.80:
             ops.append("api disconnect")
         elif r < 0.93:
             ops.append("connect %d %d" % rng.choice([(24, 72), (16, 10)]))
+            if rng.random() < 0.25:
+                ops += ["to"] * 6      # no connection event at all: ll_connection_attempt_timeout
         elif r < 0.96:
             ops.append("ev " + " ".join(rng.choice(simple)() for _ in range(rng.choice([4, 5, 6]))))   # overflow candidates
         else:
